@@ -210,8 +210,10 @@ def _is_unpack(t):
 
 
 def _hashable_type(t):
+    # faithful to helpers.is_hashable_type: the annotation itself is tested, so a parametrised alias (list[int]) makes
+    # issubclass raise and counts as hashable (typeeval.py compares this model with the helper's own body)
     try:
-        return issubclass(_origin(t), collections.abc.Hashable)
+        return issubclass(t, collections.abc.Hashable)
     except TypeError:
         return True
 
@@ -248,6 +250,19 @@ def get_args_model(repo: Repo) -> Callable:
     return _GET_ARGS_FORMS[text]
 
 
+def _tv_has_default(t):
+    try:
+        return t.has_default()
+    except AttributeError:
+        return getattr(t, "__default__", None) is not None
+
+
+def _is_optional(t):
+    if typing.get_origin(t) is typing.Annotated:
+        t = t.__origin__
+    return typing.get_origin(t) in (typing.Union, types.UnionType) and len(typing.get_args(t)) == 2 and type(None) in typing.get_args(t)
+
+
 HELPER_MODEL: Dict[str, Callable] = {
     "get_type_origin": _origin,
     "get_args": lambda t: tuple(getattr(t, "__args__", ()) or ()),
@@ -257,21 +272,21 @@ HELPER_MODEL: Dict[str, Callable] = {
     "is_named_tuple": _is_named_tuple,
     "is_unpack": _is_unpack,
     "is_hashable_type": _hashable_type,
-    "is_final": lambda t: typing.get_origin(t) is typing.Final,
+    "is_final": lambda t: _origin(t) is typing.Final,
     "is_self": lambda t: t is typing.Self,
     "is_new_type": lambda t: hasattr(t, "__supertype__"),
     "is_union": lambda t: typing.get_origin(t) in (typing.Union, types.UnionType),
     "is_literal": lambda t: typing.get_origin(t) is typing.Literal,
     "is_annotated": lambda t: typing.get_origin(t) is typing.Annotated,
     "is_type_var": lambda t: isinstance(t, typing.TypeVar),
-    "is_type_var_any": lambda t: t is typing.Any or (isinstance(t, typing.TypeVar) and not t.__constraints__ and t.__bound__ is None),
+    "is_type_var_any": lambda t: isinstance(t, typing.TypeVar) and not t.__constraints__ and t.__bound__ in (None, typing.Any) and not _tv_has_default(t),
     "is_type_var_tuple": lambda t: isinstance(t, typing.TypeVarTuple),
-    "is_required": lambda t: typing.get_origin(t) is typing.Required,
-    "is_not_required": lambda t: typing.get_origin(t) is typing.NotRequired,
+    "is_required": lambda t: _origin(t) is typing.Required,
+    "is_not_required": lambda t: _origin(t) is typing.NotRequired,
     "is_readonly": lambda t: False,
     "is_type_alias_type": lambda t: isinstance(t, typing.TypeAliasType),
     "is_hashable": lambda v: True,
-    "is_optional": lambda t: typing.get_origin(t) in (typing.Union, types.UnionType) and len(typing.get_args(t)) == 2 and type(None) in typing.get_args(t),
+    "is_optional": lambda t: _is_optional(t),
 }
 
 
